@@ -149,6 +149,7 @@ pub fn scenario(seed: u64, rep: &mut Report) {
         let mut across: Vec<(TalkRequest, bool)> = Vec::new();
         let mut log: Vec<Value> = Vec::new();
         let mut responses = Vec::new();
+        let mut banned_meanwhile: Vec<NodeId> = Vec::new();
         let burst = rng.chance(1, 2);
         let mut i = 0;
         while i < emitted.len() {
@@ -181,6 +182,14 @@ pub fn scenario(seed: u64, rep: &mut Report) {
                     }
                     2 | 3 => {
                         log.push(json!(format!("drop {}", hx(&id))));
+                        // now and then the requester got banned while the application held its
+                        // request: the request is still owed its (empty) response
+                        if rng.chance(1, 6) {
+                            let nid = *req.node_id();
+                            rig.discv5.ban_node(&nid, None);
+                            banned_meanwhile.push(nid);
+                            rep.count("dropped_after_requester_was_banned");
+                        }
                         fates.insert(id, Fate::Drop);
                         drop(req);
                     }
@@ -193,6 +202,9 @@ pub fn scenario(seed: u64, rep: &mut Report) {
             }
             rig.settle().await;
             responses.extend(collect_responses(rig.take_handler_in()));
+        }
+        for nid in banned_meanwhile.drain(..) {
+            rig.discv5.ban_node_remove(&nid);
         }
         // act on everything still held (except those kept for after shutdown)
         if long_hold && !held.is_empty() {
